@@ -6,7 +6,7 @@
 # Prints the check's verdict lines; exit code = the check's exit code (1 expected = detected).
 set -u
 NAME=$1; PROP=$2; TIER=${3:-quick}
-WT=/tmp/runseed-$NAME
+WT=/tmp/runseed-$NAME-$$
 rm -rf $WT; git -C /repo worktree prune
 git -C /repo worktree add -q --detach $WT HEAD || exit 2
 git -C $WT apply /verif/seeded/$NAME/patch.diff || { echo "patch does not apply"; exit 2; }
